@@ -133,6 +133,15 @@ def render_tree(case, src, logfile):
             'dep_' + tag + '.txt'))
         sandbox.write_file(os.path.join(src, d, 'dep_' + tag + '.txt'), 'd\n')
         sandbox.write_file(os.path.join(src, d, 'in_' + tag + '.txt'), 'x\n')
+        # a header directory scanned with include=: found relative to this
+        # script's directory
+        sandbox.write_file(os.path.join(src, d, 'inc_' + tag, 'x.h'), '/**/\n')
+        sandbox.write_file(os.path.join(src, d, 'inc_' + tag, 'sub', 'y.h'),
+                           '/**/\n')
+        L.append('_hd = header_directory({!r}, include="**/*.h")'.format(
+            'inc_' + tag))
+        L.append('_log["dirfiles"] = sorted(i.path.suffix for i in '
+                 '_hd.files)')
         if node['up']:
             L.append('_u = build_step({!r}, cmd=["cp", build_step.input, '
                      'build_step.output], files=[{!r}])'.format(
@@ -246,6 +255,14 @@ def prop_submodules(rec):
                     raise Violation('sub/own-variables', 'script {!r}: own '
                                     'variables changed by a submodule: {!r}'
                                     .format(d, lg['own_after']), case)
+                wantfiles = sorted(posixpath.join(d, 'inc_n{}'.format(i), f)
+                                   for f in ('x.h', 'sub/y.h'))
+                if lg.get('dirfiles') != wantfiles:
+                    raise Violation('sub/paths-directory-scan', 'script {!r}: '
+                                    'header_directory(\'inc_n{}\', include=) '
+                                    'found {!r}, expected {!r}'.format(
+                                        d, i, lg.get('dirfiles'), wantfiles),
+                                    case)
                 if len(lg['builtins']) != 7:
                     raise Violation('sub/builtins', 'script {!r} only sees '
                                     'builtins {}'.format(d, lg['builtins']),
